@@ -228,6 +228,8 @@ class BottomUpDataset(BaseDataset):
             these chunks during training. Else, in-memory caching is used.
         np_chunks_path: Path to save the `.npz` chunks. If `None`, current working dir is used.
         use_existing_chunks: Use existing chunks in the `np_chunks_path`.
+        edge_inds: Edge indices of the skeleton (list of (source, destination) node indices).
+            Only required when `labels` is `None` (i.e., with `use_existing_chunks`).
     """
 
     def __init__(
@@ -243,6 +245,7 @@ class BottomUpDataset(BaseDataset):
         np_chunks: bool = False,
         np_chunks_path: Optional[str] = None,
         use_existing_chunks: bool = False,
+        edge_inds: Optional[list] = None,
     ) -> None:
         """Initialize class attributes."""
         super().__init__(
@@ -259,7 +262,10 @@ class BottomUpDataset(BaseDataset):
         self.confmap_head_config = confmap_head_config
         self.pafs_head_config = pafs_head_config
 
-        self.edge_inds = self.labels.skeletons[0].edge_inds
+        # with `use_existing_chunks` there are no labels: the caller provides the edge indices
+        self.edge_inds = (
+            self.labels.skeletons[0].edge_inds if self.labels is not None else edge_inds
+        )
         if not self.use_existing_chunks:
             rank = get_dist_rank()
             if (
